@@ -5,6 +5,7 @@ import (
 	"go/types"
 	"sort"
 	"strings"
+	"sync"
 
 	"golang.org/x/tools/go/ssa"
 )
@@ -13,36 +14,44 @@ import (
 // the prelude (datatypes, uninterpreted model functions, type tags), the
 // script, and the registries that give Go types their SMT image.
 type World struct {
-	l        *Loaded
-	specs    *Specs
-	sc       *Script
-	pre      []string
-	preSeen  map[string]bool
-	tags     map[string]int
-	tagTypes []types.Type
-	heapSort map[string]Sort
-	heapRef  map[string]bool
-	epochN   int
-	frameN   int
-	assumps  map[string]bool // abstractions actually used (reported in evidence)
-	obls     []*Obligation
-	fnIDs    map[*ssa.Function]int
-	fnByID   map[int]*ssa.Function
-	closures map[string]*FnVal // term text -> closure info
-	inlineDepth int
-	curFn    string
-	unsupported []string
-	callOrd  map[string]int
-	smoke    []smokePoint
-	dynOf    map[string]*Val
-	implFacts map[string]types.Type
-	ranges   map[*ssa.Range]*rangeState
-	rangeKey map[*ssa.Range]string
-	havocked []string
-	inlined  map[string]bool
+	l             *Loaded
+	specs         *Specs
+	sc            *Script
+	pre           []string
+	preSeen       map[string]bool
+	tags          map[string]int
+	tagTypes      []types.Type
+	heapSort      map[string]Sort
+	heapRef       map[string]bool
+	epochN        int
+	frameN        int
+	assumps       map[string]bool // abstractions actually used (reported in evidence)
+	obls          []*Obligation
+	fnIDs         map[*ssa.Function]int
+	fnByID        map[int]*ssa.Function
+	closures      map[string]*FnVal // term text -> closure info
+	inlineDepth   int
+	curFn         string
+	unsupported   []string
+	callOrd       map[string]int
+	smoke         []smokePoint
+	dynOf         map[string]*Val
+	implFacts     map[string]types.Type
+	ranges        map[*ssa.Range]*rangeState
+	rangeKey      map[*ssa.Range]string
+	havocked      []string
+	inlined       map[string]bool
 	usedContracts map[string]*Contract
-	topContract *Contract
-	splits   []Term
+	topContract   *Contract
+	splits        []Term
+	axioms        []axiomLine
+	axiomSrc      []string
+	replay        *replayPlan
+}
+
+type axiomLine struct {
+	text string
+	syms []string
 }
 
 type smokePoint struct {
@@ -89,9 +98,14 @@ func (w *World) assumeAxioms() {
 			st := &State{cond: tTrue, heap: map[string]Term{}, cells: map[cellID]Term{}}
 			env := &CEnv{w: w, pkg: pkg, vars: map[string]*Val{}, cur: st, old: st}
 			t := w.evalBool(env, ax.Expr)
-			w.sc.comment("axiom " + ax.Name)
-			w.sc.assume(t)
-			w.assumption("model axiom " + ax.Name + ": " + ax.Src)
+			var syms []string
+			for name := range w.specs.Fns {
+				if strings.Contains(t.S, "("+sym(name)+" ") || strings.Contains(t.S, " "+sym(name)+")") || strings.Contains(t.S, " "+sym(name)+" ") {
+					syms = append(syms, sym(name))
+				}
+			}
+			w.axioms = append(w.axioms, axiomLine{text: "; axiom " + ax.Name + "\n(assert " + t.S + ")", syms: syms})
+			w.axiomSrc = append(w.axiomSrc, "model axiom "+ax.Name+": "+ax.Src)
 		}()
 	}
 }
@@ -106,7 +120,13 @@ func (w *World) preAdd(key, line string) {
 
 func (w *World) prelude() string { return strings.Join(w.pre, "\n") }
 
-func (w *World) assumption(s string) { w.assumps[s] = true }
+var assumpMu sync.Mutex
+
+func (w *World) assumption(s string) {
+	assumpMu.Lock()
+	w.assumps[s] = true
+	assumpMu.Unlock()
+}
 
 type unsupportedErr struct{ msg string }
 
@@ -583,6 +603,7 @@ type Obligation struct {
 	Values   []string
 	ValNames []string
 	Result   *SolverResult
+	Relaxed  *SolverResult
 	Pos      string
 }
 
